@@ -7,6 +7,7 @@ import (
 	"go/ast"
 	"go/token"
 	"go/types"
+	"regexp"
 	"sort"
 	"strings"
 )
@@ -27,6 +28,8 @@ type FuncSummary struct {
 	Defers   []*ast.DeferStmt
 	Gos      []*ast.GoStmt
 	Switches []*SwitchRec
+	// StreamOuts: write streams handed out by buf.Read(b) (encoders of the io.Reader style)
+	StreamOuts []*StreamOut
 }
 
 type LenSum struct {
@@ -73,7 +76,7 @@ func (w *World) Interpret(fi *FuncInfo, mode string) *FuncSummary {
 	if fs, ok := c.funcs[key]; ok {
 		return fs
 	}
-	in := &Interp{w: w, fi: fi, info: fi.Pkg.TypesInfo, shared: &sharedCtx{}}
+	in := &Interp{w: w, fi: fi, info: fi.Pkg.TypesInfo, shared: &sharedCtx{}, mode: mode}
 	st := newState()
 	if fi.Decl.Recv != nil && len(fi.Decl.Recv.List) > 0 && len(fi.Decl.Recv.List[0].Names) > 0 {
 		ro := fi.Pkg.TypesInfo.Defs[fi.Decl.Recv.List[0].Names[0]]
@@ -113,7 +116,7 @@ func (w *World) Interpret(fi *FuncInfo, mode string) *FuncSummary {
 		in.ret(end, nil, fi.Decl.Body.End())
 	}
 	fs := &FuncSummary{Fi: fi, In: in, Rets: in.Rets, Stores: in.Stores, Notes: in.Notes, Reads: in.Reads, Sites: in.Sites,
-		Calls: in.Calls, Copies: in.Copies, Allocs: in.Allocs, Loops: in.LoopsSeen, Final: end, Defers: in.Defers, Gos: in.Gos, Switches: in.Switches}
+		Calls: in.Calls, Copies: in.Copies, Allocs: in.Allocs, Loops: in.LoopsSeen, Final: end, Defers: in.Defers, Gos: in.Gos, Switches: in.Switches, StreamOuts: in.StreamOuts}
 	c.funcs[key] = fs
 	return fs
 }
@@ -228,6 +231,39 @@ func (w *World) EncSummaryOf(f *types.Func) *EncSum {
 	es := &EncSum{Fn: fi, Stores: fs.Stores, Notes: fs.Notes, Copies: fs.Copies, FS: fs}
 	good := goodRets(fs.Rets)
 	first := true
+	// an encoder of the Read(b []byte) (n int, err error) style: its encoding is the stream it hands out
+	if len(fs.StreamOuts) > 0 && fi.Decl.Name.Name == "Read" {
+		so := fs.StreamOuts[len(fs.StreamOuts)-1]
+		es.Size, es.Extent, es.Recs, es.Origin = so.Buf.Len, so.Buf.Extent, so.Buf.Recs, "stream"
+		// what the destination holds at the last successful return: the bytes of every stream copied into it
+		for i := len(good) - 1; i >= 0; i-- {
+			if good[i].St == nil {
+				continue
+			}
+			if db := good[i].St.bufs[so.Dst]; db != nil && len(db.Recs) > 0 {
+				es.Recs, es.Extent = db.Recs, db.Extent
+				// the size is the count the function reports
+				if len(good[i].Vals) > 0 {
+					if iv, ok := good[i].Vals[0].(IntV); ok && iv.T != nil {
+						es.Size = iv.T
+					}
+				}
+				break
+			}
+		}
+		// the encoding exists only when every fallible step succeeded: an alternative taken on `err == nil`
+		// (a helper that writes only when the value could be encoded) is the one that happened
+		es.Size, es.Extent = assumeErrNil(es.Size), assumeErrNil(es.Extent)
+		var recs []*Rec
+		for _, r := range es.Recs {
+			nr := *r
+			nr.Off, nr.W = assumeErrNil(r.Off), assumeErrNil(r.W)
+			recs = append(recs, &nr)
+		}
+		es.Recs = recs
+		c.encs[f] = es
+		return es
+	}
 	for i := len(good) - 1; i >= 0; i-- {
 		r := good[i]
 		if len(r.Vals) == 0 {
@@ -850,4 +886,27 @@ func init() {
 			}
 		}
 	}
+}
+
+var errNilCondRE = regexp.MustCompile(`^[A-Za-z_][A-Za-z0-9_]*==nil$`)
+
+// assumeErrNil resolves every choice on `<identifier> == nil` to its first arm.
+func assumeErrNil(t *Term) *Term {
+	if t == nil {
+		return nil
+	}
+	for i := 0; i < 6; i++ {
+		changed := false
+		t = t.Map(func(a *Atom) *Term {
+			if a.Kind == "ite" && len(a.Sub) == 2 && errNilCondRE.MatchString(a.Cond) {
+				changed = true
+				return a.Sub[0]
+			}
+			return nil
+		})
+		if !changed {
+			break
+		}
+	}
+	return t
 }
